@@ -93,11 +93,27 @@ Blind(m, a) == [s \in NonAbs(m) |-> [b \in Ac(m) |-> IF b = a THEN 1 ELSE 0]]
 \* every observation reveals the next state: no (action, observation) is compatible with two states
 FullObs(m) == \A a \in Ac(m) : \A o \in Ob(m) : Cardinality({n \in St(m) : m.O[a][n][o] > 0}) <= 1
 
+\* More than three non-absorbing states: the closed-form solver of Num.tla does not reach, so the batch carries
+\* the values (computed by the harness) and TLC CERTIFIES them: the optimal value function of a discounted MDP is
+\* the unique solution of the optimality equation, the value of a fixed-action policy the unique solution of its
+\* evaluation equation.  A wrong hint is an evaluation error (machinery failure), never a verdict.
+Hinted(m) == "vhint" \in DOMAIN m
+CertifiedV(m) ==
+  LET v == TLCEval([s \in St(m) |-> <<m.vhint[s][1], m.vhint[s][2]>>]) IN
+  IF \A s \in St(m) :
+        IF s \in ExplAbs(m) THEN v[s] = <<0, 1>>
+        ELSE REq(v[s], RMaxSet({QFromV(m, v, s, a) : a \in Avail(m, s)}))
+  THEN v ELSE Assert(FALSE, "hinted optimal values do not solve the optimality equation")
+CertifiedBlind(m, a) ==
+  LET v == TLCEval([s \in St(m) |-> <<m.blhint[a][s][1], m.blhint[a][s][2]>>]) IN
+  IF \A s \in St(m) : IF s \in ExplAbs(m) THEN v[s] = <<0, 1>> ELSE REq(v[s], QFromV(m, v, s, a))
+  THEN v ELSE Assert(FALSE, "hinted blind-policy values do not solve the evaluation equation")
+
 Consts(m) ==
   LET na  == St(m) \ AbsAll(m)
-      vs  == OptimalValue(m)
+      vs  == IF Hinted(m) THEN CertifiedV(m) ELSE OptimalValue(m)
       qs  == TLCEval([s \in St(m) |-> TLCEval([a \in Ac(m) |-> IF s \in ExplAbs(m) THEN <<0, 1>> ELSE QFromV(m, vs, s, a)])])
-      bl  == TLCEval([a \in Ac(m) |-> TLCEval(PolicyValue(m, Blind(m, a), 1))])
+      bl  == TLCEval([a \in Ac(m) |-> IF Hinted(m) THEN CertifiedBlind(m, a) ELSE TLCEval(PolicyValue(m, Blind(m, a), 1))])
       LD  == LCMTo([i \in 1..(m.N * (m.K + 1)) |->
                       IF i <= m.N THEN vs[i][2] ELSE bl[((i - m.N - 1) \div m.N) + 1][((i - m.N - 1) % m.N) + 1][2]],
                    m.N * (m.K + 1))
